@@ -278,3 +278,40 @@ def project_sampler(sc, run):
             e = {"ev": "final", "outcome": oc, "prefixok": ok, "lens": lens, "hastrace": tr is not None}
         out.append(e)
     return out
+
+
+def project_schema(sc, run):
+    """StatsSchemaTrace vocabulary: reset with the declared schema, one line per draw."""
+    sch = next((e for e in run if e["ev"] == "schema"), None)
+    if sch is None:
+        return []
+    sizes = sch["dim_sizes"]
+    names = sch["names"]
+    types = [t.lower() for _, t in sch["types"]]
+    lens = []
+    for _, ds in sch["dims"]:
+        n = 1
+        for d in ds:
+            n *= sizes.get(d, -1)
+        lens.append(n)
+    ev = [d or "" for _, d in sch["event_dims"]]
+    out = [{"e": "reset", "names": names, "types": types, "lens": lens, "ev": ev}]
+    last_tid = -1
+    tid = None
+    for e in run:
+        if e["ev"] == "adapt":
+            tid = e["tid"]
+        elif e["ev"] == "draw_out" and e["res"] == "ok":
+            st = []
+            for name, v in e["stats"]:
+                if v is None:
+                    st.append({"name": name, "present": False, "t": "", "n": 0})
+                else:
+                    st.append({"name": name, "present": True, "t": v["t"], "n": v["n"]})
+            diverging = sval(e["stats"], "diverging")
+            changed = (tid is not None and tid != last_tid and "flow" not in sc["preset"])
+            if tid is not None:
+                last_tid = tid
+            out.append({"e": "draw", "st": st, "diverging": bool(diverging), "changed": bool(changed),
+                        "counter": sval(e["stats"], "draw"), "chain": sval(e["stats"], "chain")})
+    return out
